@@ -104,6 +104,10 @@ static void set_position(struct context_data *ctx, int pos, int dir)
 			}
 			pat = pos < mod->len ? mod->xxo[pos] : 0xff;
 
+			/* A position that next_order() will skip still selects the
+			 * end point of its own sequence, not the previous one's. */
+			f->end_point = pos > p->scan[seq].ord ? 0 : p->scan[seq].num;
+
 			if (pat < mod->pat) {
 				if (has_marker && pat == 0xff) {
 					return;
